@@ -21,7 +21,8 @@ PROP = 'C18'
 RULE = ('exhaustive over {14 shipped .npz tables} x {biort, level1(compact), level1(non-compact), qshift} '
         'x {cold, warm cache} x {1,2,4,8 loading threads}, plus construction of every transform / '
         'scattering module that loads the table; every loader return is judged by the contracts; '
-        'distinct by (table, loader, scenario, check); non-trivial = the loader returned arrays')
+        'distinct by (table, loader, scenario, check); non-trivial = the loader returned arrays'
+        "; DWT modules built from the loader's own arrays through the tuple form under a float64 default and reloaded in place, followed by a re-load of the table (zero-copy aliasing of the shipped tables)")
 ASSUMPTIONS = ['dtcwt 0.14 coefficient tables are the reference', 'identity tolerance 5e-9 for PR / '
                'orthonormality (qshift_32 is orthonormal to 1.5e-9 only, in the reference package too), '
                'exact (1e-15) for the reversal identities',
